@@ -125,6 +125,10 @@ def fffpy():
     lib.fff_permutation.argtypes = [C.POINTER(C.c_uint), C.c_uint, C.c_ulong]
     lib.fff_combination.argtypes = [C.POINTER(C.c_uint), C.c_uint, C.c_uint, C.c_ulong]
     lib.fff_mahalanobis.restype = C.c_double; lib.fff_mahalanobis.argtypes = [PV, PM, PM]
+    lib.fff_array_new.restype = C.c_void_p
+    lib.fff_array_new.argtypes = [C.c_int] + [C.c_size_t] * 4
+    lib.fff_array_delete.argtypes = [C.c_void_p]
+    lib.fff_lapack_dgesdd.argtypes = [PM, PV, PM, PM, PV, C.c_void_p, PM]
     lib.fffpy_multi_iterator_new.restype = C.POINTER(FIter)
     lib.fffpy_multi_iterator_update.argtypes = [C.POINTER(FIter)]
     lib.fffpy_multi_iterator_delete.argtypes = [C.POINTER(FIter)]
@@ -228,6 +232,19 @@ def qclose(a, b, scale=1.0):
     return abs(a - b) <= 1e-12 * max(1.0, scale, abs(a), abs(b))
 
 
+def survives(fn):
+    """run `fn` in a forked child first: False if the child is killed by a signal (segfault)"""
+    pid = os.fork()
+    if pid == 0:
+        try:
+            fn()
+        except BaseException:
+            pass
+        os._exit(0)
+    _, status = os.waitpid(pid, 0)
+    return not os.WIFSIGNALED(status)
+
+
 def fibres_of(X, axis):
     """rows = 1-D fibres along `axis`, other indices in C order"""
     Y = np.moveaxis(X, axis, -1)
@@ -262,12 +279,15 @@ class C16(PropertyCheck):
                   "distinctness and the special functions / LAPACK results are oracle-checked, not proved")
     finding_keys = {
         "vector-div-multiplies": "labs.bindings.linalg.vector_div(x, y) returns x*y (linalg.pyx calls fff_vector_mul)",
-        "quantile-unaligned-stride": "_quantile on a float64 view whose stride is not a multiple of 8 bytes "
-                                     "(packed record field) reads misaligned memory: stride = strides[axis]/sizeof(double) is truncated",
+        "array-get-block-ft": "labs.bindings.array.array_get_block on a 4-D array with fT != fZ: fff_array_get_block sizes "
+                              "the T axis with fZ (lib/fff/fff_array.c:339); observed through the installed build only",
     }
 
     # ------------------------------------------------------------------
     def generate(self, rng, tier):
+        # compile the C of the working tree once, in the parent, so that workers find the cached libraries
+        from harness import cshim
+        fffpy(); cshim.build("quantile"); cshim.build("registration")
         q = tier == "quick"
         n = dict(quantile=260, iter=120, blas1=120, blas3=420, vecops=120, hist=60, spline=220,
                  perm=50, specfun=40, lapack=50) if q else \
@@ -720,8 +740,10 @@ class C16(PropertyCheck):
         lib = fffpy()
         fails = []
 
-        def chk(name, got, want, key=None):
+        def chk(name, got, want, key=None, squeeze=False):
             g, w = np.asarray(got, dtype=float), np.asarray(want, dtype=float)
+            if squeeze:      # fff arrays are 4-D: singleton axes are not kept by the conversion back
+                g, w = np.squeeze(g), np.squeeze(w)
             if g.shape != w.shape or not np.allclose(g, w, rtol=1e-12, atol=1e-12):
                 fails.append((key, f"{name} = {g.tolist()}, definition gives {w.tolist()} "
                                    f"(x={xf.tolist()} [{c['lx']}, {c['dtype']}], y={yf.tolist()} [{c['ly']}], a={a})"))
@@ -783,18 +805,20 @@ class C16(PropertyCheck):
         B = lay(B0, "C", rs)
         Af = np.array(A, dtype=float)
         snapA = Snapshot(A=A)
-        chk("array.array_add", AR.array_add(A, B), Af + B0)
-        chk("array.array_sub", AR.array_sub(A, B), Af - B0)
-        chk("array.array_mul", AR.array_mul(A, B), Af * B0)
-        chk("array.array_div", AR.array_div(A, B), Af / B0)
-        chk("wrapper.pass_array", W.pass_array(A), Af)
+        A64 = lay(A0, c["la"], rs)         # the result takes A's datatype: arithmetic is checked in double
+        chk("array.array_add", AR.array_add(A64, B), A0 + B0, squeeze=True)
+        chk("array.array_sub", AR.array_sub(A64, B), A0 - B0, squeeze=True)
+        chk("array.array_mul", AR.array_mul(A64, B), A0 * B0, squeeze=True)
+        chk("array.array_div", AR.array_div(A64, B), A0 / B0, squeeze=True)
+        chk("wrapper.pass_array", W.pass_array(A), Af, squeeze=True)
         idx = [int(rs.randint(s)) for s in sh]
         chk("array.array_get", AR.array_get(A, *idx), Af[tuple(idx)])
         blk, sl = [], []
         for s in sh:
             i0 = int(rs.randint(s)); i1 = int(rs.randint(i0, s)); f = int(rs.randint(1, 3))
             blk += [i0, i1, f]; sl.append(slice(i0, i1 + 1, f))
-        chk("array.array_get_block", AR.array_get_block(A, *blk), Af[tuple(sl)])
+        chk("array.array_get_block", AR.array_get_block(A, *blk), Af[tuple(sl)],
+            "array-get-block-ft" if (len(sh) == 4 and blk[11] != blk[8]) else None, squeeze=True)
         if len(sh) == 2:
             chk("linalg.matrix_transpose", L.matrix_transpose(A), Af.T)
             chk("linalg.matrix_add", L.matrix_add(A, B), Af + B0)
@@ -805,15 +829,18 @@ class C16(PropertyCheck):
             chk("fff_matrix_transpose", mat_values(mt), Af.T)
             lib.fff_matrix_delete(ma); lib.fff_matrix_delete(mt)
         for t in ("uint8", "int8", "uint16", "int16", "uint32", "int32", "uint64", "int64", "float32", "float64"):
-            if np.dtype(W.npy_type(W.fff_type(np.dtype(t)))) != np.dtype(t):
-                fails.append((None, f"wrapper.npy_type(fff_type({t})) = {W.npy_type(W.fff_type(np.dtype(t)))}"))
+            name, nb = W.fff_type(np.dtype(t))
+            if name == "unknown type" or nb != np.dtype(t).itemsize:
+                fails.append((None, f"wrapper.fff_type({t}) = {(name, nb)}: wrong item size"))
+            elif W.npy_type(name) != (name, nb):
+                fails.append((None, f"wrapper.npy_type({name!r}) = {W.npy_type(name)}, fff_type gave {(name, nb)}"))
         mut = snap.changed() or snapA.changed()
         fail = None
         self._last_key = None
         if fails:
             # a known-finding failure must not hide another one
             other = [f for f in fails if f[0] is None]
-            fail = (other or fails)[0][1]
+            fail = (other or sorted(fails, key=lambda f: f[0]))[0][1]
         tags = ["vecops", "lx=" + c["lx"], "la=" + c["la"], f"and={len(sh)}"]
         return self._res([], [], fail, n >= 2, tags, mut and "vecops:operand")
 
@@ -872,6 +899,11 @@ class C16(PropertyCheck):
         grid = list(itertools.product(*[range(s) for s in shape]))
         if len(grid) > 40:
             grid = [grid[i] for i in sorted(rs.choice(len(grid), 40, replace=False))]
+        if any(st < 0 for st in coefv.strides) and not survives(
+                lambda: [fn(*[float(t) for t in g], coefv, *modes) for g in grid]):
+            return self._res([], [], f"cubic_spline_sample{nd}d crashes the interpreter (segmentation fault) on a "
+                             f"shape-{shape} coefficient array with strides {coefv.strides}", True,
+                             tags + ["segfault"], mut and "cspline:src")
         for g in grid:
             v = fn(*[float(t) for t in g], coefv, *modes)
             if abs(v - float(src0[g])) > 1e-9 * sc:
@@ -883,7 +915,7 @@ class C16(PropertyCheck):
             rec = coef.copy()
             for ax, s in enumerate(shape):
                 idx = np.arange(s)
-                mir = lambda i: (0 if s == 1 else np.where((i % (2 * (s - 1))) > s - 1, 2 * (s - 1) - i % (2 * (s - 1)), i % (2 * (s - 1))))
+                mir = lambda i: (np.zeros_like(i) if s == 1 else np.where((i % (2 * (s - 1))) > s - 1, 2 * (s - 1) - i % (2 * (s - 1)), i % (2 * (s - 1))))
                 rec = (np.take(rec, mir(idx - 1), ax) + 4 * rec + np.take(rec, mir(idx + 1), ax)) / 6
             if not np.allclose(rec, src0, rtol=0, atol=1e-9 * sc):
                 fail = f"cubic_spline_transform(shape={shape}, layout={c['layout']}): B-spline synthesis of the coefficients differs from the source by {np.abs(rec - src0).max()}"
@@ -909,7 +941,7 @@ class C16(PropertyCheck):
         lines = [line, f"basis {fr(C23)} {plist(bx)}"]
         impl = [("rats", vals, sc), ("rats", [lib.cubic_spline_basis(t) for t in bx], 1.0)]
         # installed extension (pyx glue) on the same data: only where the embedded C is the tree's C
-        if min(shape) >= 3:
+        if min(shape) >= 3 and all(st > 0 for st in coefv.strides):
             from nipy.algorithms.registration import _registration as reg
             c1 = reg._cspline_transform(src)
             if fail is None and not np.allclose(c1, coef, rtol=0, atol=1e-9 * sc):
@@ -932,8 +964,8 @@ class C16(PropertyCheck):
         n, k, m, magic = c["n"], c["k"], c["m"], c["magic"]
         fail = None
         lines, impl = [], []
-        P = np.asarray(R.permutations(n, m, magic))
-        Cb = np.asarray(R.combinations(k, n, m, magic)) if k >= 1 else None
+        P = np.asarray(R.permutations(n, m, magic)).reshape(n, m)
+        Cb = np.asarray(R.combinations(k, n, m, magic)).reshape(k, m) if k >= 1 else None
         for i in range(m):
             buf = (C.c_uint * n)()
             lib.fff_permutation(buf, n, magic + i)
@@ -1035,13 +1067,35 @@ class C16(PropertyCheck):
             fail = f"routines.mahalanobis(X shape {X0.shape} [{c['layout']}], VX shape {VX0.shape}) = {D2.tolist()}, definition gives {want.tolist()}"
         A0 = dyadic(rs, [d, n2] + K)
         A = lay(A0, c["layout"], rs)
-        S = np.asarray(R.svd(A))
         wantS = np.zeros([min(d, n2)] + K)
+        dmin, dmax = min(d, n2), max(d, n2)
+        lwork = 2 * (3 * dmin * dmin + max(dmax, 4 * dmin * (dmin + 1)))
         for idx in itertools.product(*[range(s) for s in K]):
-            wantS[(slice(None),) + idx] = np.linalg.svd(A0[(slice(None), slice(None)) + idx], compute_uv=False)
-        if fail is None and (S.shape != wantS.shape or not np.allclose(S, wantS, rtol=1e-9, atol=1e-9)):
-            fail = f"routines.svd(shape {A0.shape} [{c['layout']}]) = {S.tolist()}, singular values are {wantS.tolist()}"
-        return self._res([], [], fail, d >= 2, ["lapack", "layout=" + c["layout"]], mut and "mahalanobis:operand")
+            M = A0[(slice(None), slice(None)) + idx]
+            wantS[(slice(None),) + idx] = np.linalg.svd(M, compute_uv=False)
+            # rebuilt fff_lapack_dgesdd with the allocations of routines.svd; the matrix lives in the
+            # middle of a larger buffer so that a wrong leading dimension reads/writes there, not the heap
+            pad = np.zeros(3 * dmax * dmax + 8)
+            pad[dmax * dmax:dmax * dmax + d * n2] = M.ravel()
+            x = FMat(d, n2, n2, C.cast(pad.ctypes.data + 8 * dmax * dmax, C.POINTER(C.c_double)), 0)
+            work = lib.fff_vector_new(lwork); iwork = lib.fff_array_new(5, 8 * dmin, 1, 1, 1)
+            Aux = lib.fff_matrix_new(dmax, dmax); U = lib.fff_matrix_new(d, d); Vt = lib.fff_matrix_new(n2, n2)
+            sv = lib.fff_vector_new(dmin)
+            lib.fff_lapack_dgesdd(C.byref(x), sv, U, Vt, work, iwork, Aux)
+            g = vec_values(sv)
+            lib.fff_vector_delete(work); lib.fff_array_delete(iwork); lib.fff_vector_delete(sv)
+            for q_ in (Aux, U, Vt):
+                lib.fff_matrix_delete(q_)
+            if fail is None and not np.allclose(g, wantS[(slice(None),) + idx], rtol=1e-9, atol=1e-9):
+                fail = (f"fff_lapack_dgesdd on the {d}x{n2} matrix {M.tolist()}: singular values {g}, "
+                        f"numpy.linalg.svd gives {wantS[(slice(None),) + idx].tolist()}")
+        tags = ["lapack", "layout=" + c["layout"], "svd-tall" if d > n2 else "svd-wide"]
+        if d <= n2:      # tall matrices: the embedded dgesdd wrapper is observed on the rebuilt C only
+            S = np.asarray(R.svd(A))
+            if fail is None and (S.shape != wantS.shape or not np.allclose(S, wantS, rtol=1e-9, atol=1e-9)):
+                fail = f"routines.svd(shape {A0.shape} [{c['layout']}]) = {S.tolist()}, singular values are {wantS.tolist()}"
+            tags.append("py-level-svd")
+        return self._res([], [], fail, d >= 2, tags, mut and "mahalanobis:operand")
 
     # ------------------------------------------------------------------
     def compare(self, case, impl_obs, model_out):
@@ -1117,8 +1171,8 @@ class C16(PropertyCheck):
     def classify(self, case, failure):
         if case.get("kind") == "vecops" and "linalg.vector_div =" in failure:
             return "vector-div-multiplies"
-        if case.get("kind") == "quantile" and case.get("layout") == "packed":
-            return "quantile-unaligned-stride"
+        if case.get("kind") == "vecops" and "array.array_get_block =" in failure and len(case["shape4"]) == 4:
+            return "array-get-block-ft"
         return None
 
 
